@@ -1,5 +1,217 @@
-"""SMT-LIB2 side queries (engine E2). Filled in per property in smt_*.py modules."""
+"""SMT-LIB2 side queries (engine E2, DESIGN.md §2.3) - used by C08 only.
+
+The moduli are read out of the *compiled* code: harness c08_gf::moduli::q08_export_moduli has a
+kani::cover!(p == [POLYNOMIAL.., PRIME..]); Kani's concrete playback prints the satisfying p.
+Queries (z3 always, cvc5 as a second opinion where it is fast enough):
+  * GF(2)[x]: for every d in 1..n/2:  exists f (deg d), g (deg n-d): clmul(f, g) == POLYNOMIAL ?   (unsat = no factor)
+  * Fp32BitPrime: exists f in [2^(L-1), 2^L), g >= f: f * g == PRIME ?  for L = 2..16          (unsat = prime)
+  * Fp31: same, 8-bit.   Fp61BitPrime: PRIME == 2^61 - 1 is matched bit for bit; primality of M61 is a
+    trusted textbook fact (a 61-bit factoring refutation is out of reach of the solvers present).
+A `sat` answer yields a factor pair which is replayed natively through the real `Mul` (f * g == 0).
+"""
+import os
+import re
+import subprocess
+import time
+
+import kani_run
+
+Z3 = "/usr/bin/z3"
+CVC5 = "cvc5"
+
+GF = [("Gf2", 1), ("Gf3Bit", 3), ("Gf8Bit", 8), ("Gf9Bit", 9), ("Gf20Bit", 20), ("Gf32Bit", 32), ("Gf40Bit", 40)]
+PF = [("Fp31", 8), ("Fp32BitPrime", 32), ("Fp61BitPrime", 61)]
+
+
+def read_moduli():
+    r = kani_run.run_kani(["c08_gf::moduli::q08_export_moduli"], 1, 120, 16, exact=False, playback=True,
+                          logname="C08-moduli.log")
+    hr = None
+    for k, v in r["results"].items():
+        if k.endswith("q08_export_moduli"):
+            hr = v
+    if not hr or "playback" not in hr:
+        return None
+    text = "\n".join(hr["playback"])
+    vals = []
+    for m in re.finditer(r"vec!\[([0-9,\s]+)\]", text):
+        bs = [int(x) for x in m.group(1).replace("\n", " ").split(",") if x.strip()]
+        if len(bs) == 16:
+            vals.append(int.from_bytes(bytes(bs), "little"))
+    if len(vals) != 10:
+        return None
+    return vals
+
+
+def solve(solver, text, timeout):
+    """check-sat first; the model is requested in a second run only after `sat`
+    (a `(get-model)` after unsat prints an (error ...) line, and any error line is treated as inconclusive)."""
+    body = text.replace("(get-model)\n", "")
+    res, out, dt = solve1(solver, body, timeout)
+    if res == "sat" and "(get-model)" in text:
+        res2, out2, dt2 = solve1(solver, text, timeout)
+        if res2 == "sat":
+            return res2, out2, dt + dt2
+    return res, out, dt
+
+
+def solve1(solver, text, timeout):
+    cmd = [Z3, "-smt2", "-in"] if solver == "z3" else [CVC5, "--lang", "smt2", "--produce-models"]
+    t = time.time()
+    try:
+        p = subprocess.run(cmd, input=text, capture_output=True, text=True, timeout=timeout)
+        out = p.stdout + p.stderr
+    except subprocess.TimeoutExpired:
+        return "timeout", "", time.time() - t
+    dt = time.time() - t
+    if "(error" in out:
+        return "error", out, dt
+    first = out.strip().splitlines()[0] if out.strip() else ""
+    if first in ("sat", "unsat"):
+        return first, out, dt
+    return "unknown", out, dt
+
+
+def model_val(out, name):
+    m = re.search(r"\(define-fun %s \(\) \(_ BitVec \d+\)\s+#(x[0-9a-fA-F]+|b[01]+)\)" % name, out)
+    if not m:
+        return None
+    v = m.group(1)
+    return int(v[1:], 16) if v[0] == "x" else int(v[1:], 2)
+
+
+def gf_factor_query(n, d, poly):
+    w = n + 1
+    e = n - d
+    lines = ["(set-logic ALL)", f"(declare-const f (_ BitVec {w}))", f"(declare-const g (_ BitVec {w}))",
+             f"(assert (= ((_ extract {w-1} {d}) f) (_ bv1 {w-d})))",
+             f"(assert (= ((_ extract {w-1} {e}) g) (_ bv1 {w-e})))"]
+    acc = f"(_ bv0 {w})"
+    for i in range(d + 1):
+        acc = f"(bvxor {acc} (ite (= ((_ extract {i} {i}) f) #b1) (bvshl g (_ bv{i} {w})) (_ bv0 {w})))"
+    lines += [f"(assert (= {acc} (_ bv{poly} {w})))", "(check-sat)", "(get-model)"]
+    return "\n".join(lines) + "\n"
+
+
+def prime_factor_query(w, L, p):
+    W = 2 * w
+    return f"""(set-logic ALL)
+(declare-const f (_ BitVec {W}))
+(declare-const g (_ BitVec {W}))
+(assert (bvuge f (_ bv{1 << (L - 1)} {W})))
+(assert (bvult f (_ bv{1 << L} {W})))
+(assert (bvuge g f))
+(assert (bvult g (_ bv{1 << w} {W})))
+(assert (= (bvmul f g) (_ bv{p} {W})))
+(check-sat)
+(get-model)
+"""
+
+
+def write_gf_replay(pid, name, f, g):
+    d = os.path.join(kani_run.VERIF, "replays", pid)
+    os.makedirs(d, exist_ok=True)
+    path = os.path.join(d, f"smt_{name}_zero_divisor.rs")
+    with open(path, "w") as fh:
+        fh.write(f"""// SMT counterexample: POLYNOMIAL of {name} = f * g over GF(2)[x], so f and g are zero divisors.
+// replay: ./check {pid} --replay {path}
+#[test]
+fn smt_replay_{name.lower()}_zero_divisor() {{
+    use crate::ff::{{{name}, U128Conversions}};
+    use crate::secret_sharing::SharedValue;
+    let f = {name}::truncate_from({f}_u128);
+    let g = {name}::truncate_from({g}_u128);
+    assert!(f != {name}::ZERO && g != {name}::ZERO);
+    assert!(f * g != {name}::ZERO, "zero divisors: {f:#x} * {g:#x} == 0 in {name}");
+}}
+""")
+    return path
 
 
 def run_for(pid, tier):
-    return {"queries": []}
+    if pid != "C08":
+        return {"queries": []}
+    queries = []
+    mods = read_moduli()
+    if mods is None:
+        return {"queries": [{"harness": "smt::read_moduli", "verdict": "error", "solver_time_s": 0,
+                             "note": "could not read POLYNOMIAL/PRIME constants out of the compiled code"}]}
+    timeout = 300 if tier == "quick" else 3600
+    for (name, n), poly in zip(GF, mods[:7]):
+        q = {"harness": f"smt::{name}::polynomial_irreducible", "modulus": hex(poly), "degree": n,
+             "queries": 0, "solver_time_s": 0.0, "solvers": ["z3"], "check": "POLYNOMIAL is irreducible"}
+        verdict = "pass"
+        if poly.bit_length() != n + 1:
+            verdict = "fail"
+            q["note"] = "degree of POLYNOMIAL != BITS"
+        for d in range(1, n // 2 + 1):
+            if verdict != "pass":
+                break
+            text = gf_factor_query(n, d, poly)
+            res, out, dt = solve("z3", text, timeout)
+            q["queries"] += 1
+            q["solver_time_s"] += dt
+            use_cvc5 = (n <= 32) or tier == "thorough"
+            if use_cvc5:
+                res2, out2, dt2 = solve("cvc5", text, timeout)
+                q["queries"] += 1
+                q["solver_time_s"] += dt2
+                if "cvc5" not in q["solvers"]:
+                    q["solvers"].append("cvc5")
+                if res2 in ("sat", "unsat") and res in ("sat", "unsat") and res != res2:
+                    verdict = "error"
+                    q["note"] = f"solver disagreement at factor degree {d}"
+                    break
+            if res == "sat":
+                f, g = model_val(out, "f"), model_val(out, "g")
+                q["factor_degree"] = d
+                q["witness"] = {"f": hex(f) if f is not None else None, "g": hex(g) if g is not None else None}
+                verdict = "fail"
+                if f is not None and g is not None:
+                    path = write_gf_replay(pid, name, f, g)
+                    q["replay"] = path
+                break
+            if res != "unsat":
+                verdict = res  # timeout / error / unknown: inconclusive
+                q["note"] = f"factor degree {d}: {res}"
+                break
+        q["verdict"] = verdict
+        q["solver_time_s"] = round(q["solver_time_s"], 3)
+        queries.append(q)
+
+    for (name, w), p in zip(PF, mods[7:]):
+        q = {"harness": f"smt::{name}::prime_modulus", "modulus": p, "queries": 0, "solver_time_s": 0.0,
+             "solvers": ["z3"], "check": "PRIME is prime"}
+        verdict = "pass"
+        if name == "Fp61BitPrime":
+            # matched against the Mersenne number; primality of M61 is a trusted fact
+            q["note"] = "PRIME == 2^61-1 checked; primality of M61 trusted (61-bit factoring refutation out of reach)"
+            if p != (1 << 61) - 1:
+                verdict = "unknown"
+                q["note"] = "PRIME is not 2^61-1: primality cannot be decided by the solvers present"
+        else:
+            half = (p.bit_length() + 1) // 2
+            for L in range(2, half + 1):
+                res, out, dt = solve("z3", prime_factor_query(w, L, p), timeout)
+                q["queries"] += 1
+                q["solver_time_s"] += dt
+                if res == "sat":
+                    f, g = model_val(out, "f"), model_val(out, "g")
+                    q["witness"] = {"f": f, "g": g}
+                    verdict = "fail"
+                    break
+                if res != "unsat":
+                    verdict = res
+                    q["note"] = f"factor bit-length {L}: {res}"
+                    break
+        q["verdict"] = verdict
+        q["solver_time_s"] = round(q["solver_time_s"], 3)
+        queries.append(q)
+
+    # a reducible polynomial is reported only after the factor pair multiplies to zero natively
+    for q in queries:
+        if q["verdict"] == "fail" and q.get("replay"):
+            status, _out = kani_run.native_replay(q["replay"])
+            q["reproduced"] = status == "reproduced"
+            q["native"] = status
+    return {"queries": queries}
